@@ -86,6 +86,7 @@ def check(run, driver):
         else:
             run.extra["translator_guard"] = f"length guard not recognised textually ({d['guard']!r}); decided by the boundary enumeration T = max_lag .. max_lag+4 below"
     reqs, meta = [], []
+    lreqs, lmeta = [], []
     label_sets = [None, "str", "int", "mixed"]
     count = 0
     for it in range(160 if thorough else 56):
@@ -126,12 +127,27 @@ def check(run, driver):
         for sel in o["lasso"]:
             if any(not (0 <= c < n * L) for c in sel) or any(a >= b for a, b in zip(sel, sel[1:])):
                 run.corr_fail("lasso-range", case, "strictly ascending column ids in [0, n*max_lag)", sel, "LASSO selection outside the oracle's range predicate")
+        # the selection as a function of the fitted coefficients (model: selOfCoef / lassoUsesLarsIC; theorem lassoOK_of_coef)
+        if method in ("lasso", "information_lasso") and len(o.get("fits", [])) == len(o["lasso"]) == n:
+            for (cls, shp, coef), sel in zip(o["fits"], o["lasso"]):
+                lreqs.append({"op": "sel_of_coef", "coef": [DC.num(float(c)) for c in coef], "rows": int(shp[0]), "ncols": int(shp[1])})
+                lmeta.append((case, cls, sel, len(coef), n * L))
+        elif method in ("lasso", "information_lasso"):
+            run.skip("LASSO fits not observable through discovery.Lasso / discovery.LassoLarsIC (selection still checked against the oracle's range predicate)")
         meta.append((case, o, names))
         reqs.append(DC.model_request(base.astype(float), n, method, info, L, af, ab, nsh, o["perms"], o["lasso"], levels, salt, nan_own))
     for (case, o, names), r in zip(meta, driver.run_sharded(reqs, shards=16)):
         if "ok" not in r:
             run.corr_fail("replay", case, r, None, "driver error"); continue
         DC.compare_with_model(run, "replay", case, o, r["ok"], names)
+        run.traces += 1
+    for (case, cls, sel, ncoef, want_len), r in zip(lmeta, driver.run(lreqs)):
+        if "ok" not in r:
+            run.corr_fail("lasso-selection", case, r, None, "driver error"); continue
+        m = r["ok"]
+        if m["sel"] != sel or (cls == "LassoLarsIC") != m["lars"] or ncoef != want_len:
+            run.corr_fail("lasso-selection", case, {"sel": m["sel"], "LassoLarsIC": m["lars"], "coef_len": want_len}, {"sel": sel, "class": cls, "coef_len": ncoef},
+                          "LASSO selection is not `where(coef != 0)` of the fit chosen by samples > predictors + 1")
         run.traces += 1
     # ---- real estimators (small sizes respecting T - L >= k + 2)
     for it in range(30 if thorough else 10):
